@@ -14,7 +14,9 @@ Out == CASE c.k = "round" -> [enc |-> Encode(c.enc, c.t, "strict")]
                              utf8 |-> ToUtf8(c.kind, <<65>>)]
 Emit == PrintT(ToJson([c |-> c, ref |-> Out]))
 CONSTANTS SlugLen
-InitSlug == c \in SlugInputs(SlugLen)
+\* class sequences are enumerated by extension (one state per sequence)
+InitSlug == c = <<>>
+NextSlug == Len(c) < SlugLen /\ \E cls \in SlugClasses : c' = Append(c, cls)
 EmitSlug == PrintT(ToJson([q |-> c, out |-> Slug(c)]))
 SlugAlphabet == \A i \in 1..Len(Slug(c)) : Slug(c)[i].o \in {"w", "-"}
 SlugSingleHyphens == NoDoubleHyphen(Slug(c))
